@@ -8,7 +8,7 @@ import numpy as np
 from toqito.channels import partial_trace
 
 from .. import gen
-from ..exact import NotExact, call, rand_int_matrix, split_int
+from ..exact import NotExact, call, present, rand_int_matrix, split_int
 
 RULE = ("configurations (dims, traced set with listing order, sys/dim argument form, dtype, numeric or cvxpy Variable) from the seeded "
         "generator, plus all subsets/orders for small dims (thorough); entries are random (Gaussian) integers so float arithmetic is exact and "
@@ -43,7 +43,7 @@ def check(ctx, dims, sys_arg, dim_form, dtype, variable=False, basis=None):
         if impl[0] == "ok":
             impl = ("ok", np.asarray(impl[1].value))
     else:
-        impl = call(partial_trace, X, sys_arg, dim_py)
+        impl = call(partial_trace, present(ctx.rng, X, allow_dtype=False), sys_arg, dim_py)
     _, re, im = split_int(X)
     desc = {"fn": "partial_trace", "dims": dims, "sys": sys_js, "dim_form": dim_form, "dtype": dtype, "variable": variable,
             "basis": basis}
